@@ -60,6 +60,9 @@ def gen_base(rng, tier, index):
         # small enough for the remaining capacity
         total = sum(-(-c["n"] // c["chunk"]) for c in case["calls"])
         case["functor_quota"] = max(1, -(-total // case["workers"])) + 1
+        if case["workers"] >= 2 and index % 2 == 0:
+            case["zero_quota_worker"] = True       # worker 0 has the quota 0, the others share the work
+            case["functor_quota"] = max(1, -(-total // (case["workers"] - 1))) + 1
         for c in case["calls"]:
             c["durations"] = {"mode": "hash", "t": 0.02}
     if index % 4 == 1:
@@ -80,7 +83,7 @@ def gen_base(rng, tier, index):
             serial = case["workers"] + rng.randrange(2)     # a replacement worker
         else:
             serial = (index // 5) % case["workers"]
-        case["faults"] = {str(serial): ["begin"]}
+        case["faults"] = {str(serial): ["begin", "system_exit"] if index % 10 >= 5 else ["begin"]}
         case["side_thread"] = True
         case["ready_first"] = False
     elif fault_kind == 3:
@@ -91,7 +94,7 @@ def gen_base(rng, tier, index):
             idx = [0, n // 2, n - 1][(index // 5) % 3]
             # the fault is armed in every worker: whichever worker receives that item raises
             nserial = case["workers"] + (12 if case.get("quota") else 0)
-            case["faults"] = {str(s): ["item", ci, idx] for s in range(nserial)}
+            case["faults"] = {str(s): ["item", ci, idx] + (["system_exit"] if index % 10 >= 5 else []) for s in range(nserial)}
             case["side_thread"] = True
             case["ready_first"] = False
     return case
